@@ -111,8 +111,8 @@ Theorem C15_known_after_import : forall env sk fname inc m isf al l1 sc sel arg 
   str_in m (e_modules env) = true -> register_mod env m s = SOk s1 ->
   sm_matching (to_key sel) (t_reg s1) <> [] -> arg <> "" ->
   apply_stmts env sk fname inc (SImport m isf al l1 :: SBind sc sel arg v line :: rest) s im ic =
-  match bind s1 sc sel arg v (fname, line) with
-  | SErr e => (s1, with_loc (fname, line) (SErr e))
+  match bind (add_imports [m] s1) sc sel arg v (fname, line) with
+  | SErr e => (add_imports [m] s1, with_loc (fname, line) (SErr e))
   | SOk s2 => apply_stmts env sk fname inc rest s2 (im ++ [m]) ic
   end.
 Proof. exact StmtProofs4.C15_known_after_import. Qed.
@@ -146,15 +146,40 @@ Theorem C15_dynamic_nonvacuous : True.
 Proof. pose proof StmtProofs4.C15DynExample.reduced. pose proof StmtProofs4.C15DynExample.run_list. exact I. Qed.
 
 (* ---- skip_unknown under dynamic registration (Model/DynReg.v, Proofs/DynRegSkip.v) ---- *)
-(* Under dynamic registration a name is KNOWN when it is registered or when the file's own imports provide it
-   (ParseContext.provides: it would be registered on first use).  The code before the repair consulted the registry
-   only and dropped bindings to names that were merely not registered yet. *)
+(* Under dynamic registration a name is KNOWN exactly when the file's own imports provide it (ParseContext.provides: it
+   would be registered on first use), independent of what was parsed before; without dynamic registration, when the
+   registry matches it.  The original code consulted the registry only and dropped bindings to names that were merely
+   not registered yet (F12, should_skip_dyn_orig); the code after that repair counted "registered OR provided", so that
+   under dynamic registration a name the file's imports do not provide was not skipped -- and raised NameError -- when
+   something else had registered that spelling (should_skip_dyn_orig2). *)
 Theorem C15_dyn_provided_never_skipped : forall c sel, DynReg.provides c sel = true ->
   forall sk reg, DynReg.should_skip_dyn sk reg c sel = false.
 Proof. exact DynRegSkip.C15_dyn_provided_never_skipped. Qed.
-Theorem C15_dyn_registered_never_skipped : forall reg sel, DynReg.reg_matches reg sel = true ->
-  forall sk c, DynReg.should_skip_dyn sk reg c sel = false.
+Theorem C15_dyn_known_is_provided : forall reg c sel, DynReg.c_dynamic c = true ->
+  DynReg.known_dyn reg c sel = DynReg.provides c sel.
+Proof. exact DynRegSkip.C15_dyn_known_is_provided. Qed.
+Theorem C15_static_known_is_registered : forall reg c sel, DynReg.c_dynamic c = false ->
+  DynReg.known_dyn reg c sel = DynReg.reg_matches reg sel.
+Proof. exact DynRegSkip.C15_static_known_is_registered. Qed.
+(* without dynamic registration a registered name is never skipped *)
+Theorem C15_dyn_registered_never_skipped : forall reg sel c, DynReg.c_dynamic c = false -> DynReg.reg_matches reg sel = true ->
+  forall sk, DynReg.should_skip_dyn sk reg c sel = false.
 Proof. exact DynRegSkip.C15_dyn_registered_never_skipped. Qed.
+(* under dynamic registration a name the file's own imports do not provide is skipped iff covered, whatever is registered *)
+Theorem C15_dyn_unprovided_skip_decision : forall c sel, DynReg.c_dynamic c = true -> DynReg.provides c sel = false ->
+  forall sk reg, DynReg.should_skip_dyn sk reg c sel = DynReg.dsk_covers sk sel.
+Proof. exact DynRegSkip.C15_dyn_unprovided_skip_decision. Qed.
+Theorem C15_dyn_registered_unprovided_skipped : forall reg c sel sk, DynReg.c_dynamic c = true -> DynReg.reg_matches reg sel = true ->
+  DynReg.provides c sel = false -> DynReg.dsk_covers sk sel = true -> DynReg.should_skip_dyn sk reg c sel = true.
+Proof. exact DynRegSkip.C15_dyn_registered_unprovided_skipped. Qed.
+(* "known" is independent of what was parsed before: for a dynamic context the decision does not depend on the registry *)
+Theorem C15_dyn_known_independent_of_registry : forall sk reg1 reg2 c sel, DynReg.c_dynamic c = true ->
+  DynReg.should_skip_dyn sk reg1 c sel = DynReg.should_skip_dyn sk reg2 c sel.
+Proof. exact DynRegSkip.C15_dyn_known_independent_of_registry. Qed.
+Theorem C15_dyn_skip_decision_full : forall sk reg c sel,
+  DynReg.should_skip_dyn sk reg c sel
+  = negb (if DynReg.c_dynamic c then DynReg.provides c sel else DynReg.reg_matches reg sel) && DynReg.dsk_covers sk sel.
+Proof. exact DynRegSkip.C15_dyn_skip_decision_full. Qed.
 Theorem C15_dyn_skip_decision : forall sk reg c sel, DynReg.reg_matches reg sel = false -> DynReg.provides c sel = false ->
   DynReg.should_skip_dyn sk reg c sel = DynReg.dsk_covers sk sel.
 Proof. exact DynRegSkip.C15_dyn_skip_decision. Qed.
@@ -232,6 +257,27 @@ Theorem C15_dyn_orig_drops_provided_binding :
     = DynReg.run_stmts DynRegSkip.DynSkipExample.univ DynRegSkip.DynSkipExample.stmts DynRegSkip.DynSkipExample.s0 [] DynReg.empty_ctx /\
   DynRegSkip.all_known_dyn DynRegSkip.DynSkipExample.univ DynReg.DSkTrue DynRegSkip.DynSkipExample.stmts DynRegSkip.DynSkipExample.s0 [] DynReg.empty_ctx = true.
 Proof. exact DynRegSkip.DynSkipExample.C15_dyn_orig_drops_provided_binding. Qed.
+(* the code between the two repairs: other.g registered by something else, the file imports dmod only;
+   `other.g.x = 7` / `dmod.fn.x = 1` with skip_unknown=True raised NameError instead of dropping the first binding, and
+   the outcome depended on what was parsed before *)
+Theorem C15_dyn_orig_registered_spelling_not_skipped :
+  DynReg.c_dynamic DynRegSkip.DynSkipExample2.ctx2 = true /\ DynReg.provides DynRegSkip.DynSkipExample2.ctx2 "other.g" = false /\
+  DynReg.reg_matches (DynReg.ds_reg DynRegSkip.DynSkipExample2.s_reg) "other.g" = true /\
+  DynReg.dsk_covers DynReg.DSkTrue "other.g" = true /\
+  DynReg.should_skip_dyn_orig2 DynReg.DSkTrue (DynReg.ds_reg DynRegSkip.DynSkipExample2.s_reg) DynRegSkip.DynSkipExample2.ctx2 "other.g" = false /\
+  DynRegSkip.DynSkipExample.summary (DynReg.run_stmts_sk DynReg.should_skip_dyn_orig2 DynRegSkip.DynSkipExample2.univ2 DynReg.DSkTrue
+     DynRegSkip.DynSkipExample2.stmts2 DynRegSkip.DynSkipExample2.s_reg [] DynReg.empty_ctx) = (["other.g"], [], Some "NameError") /\
+  DynRegSkip.DynSkipExample.summary (DynReg.run_stmts_sk DynReg.should_skip_dyn_orig2 DynRegSkip.DynSkipExample2.univ2 DynReg.DSkTrue
+     DynRegSkip.DynSkipExample2.stmts2 DynRegSkip.DynSkipExample.s0 [] DynReg.empty_ctx)
+    = (["dmod.fn"], [(("", "dmod.fn"), [("x", 1%Z)])], None) /\
+  DynReg.should_skip_dyn DynReg.DSkTrue (DynReg.ds_reg DynRegSkip.DynSkipExample2.s_reg) DynRegSkip.DynSkipExample2.ctx2 "other.g" = true /\
+  DynRegSkip.DynSkipExample.summary (DynReg.run_stmts_sk DynReg.should_skip_dyn DynRegSkip.DynSkipExample2.univ2 DynReg.DSkTrue
+     DynRegSkip.DynSkipExample2.stmts2 DynRegSkip.DynSkipExample2.s_reg [] DynReg.empty_ctx)
+    = (["other.g"; "dmod.fn"], [(("", "dmod.fn"), [("x", 1%Z)])], None) /\
+  DynRegSkip.DynSkipExample.summary (DynReg.run_stmts_sk DynReg.should_skip_dyn DynRegSkip.DynSkipExample2.univ2 DynReg.DSkTrue
+     DynRegSkip.DynSkipExample2.stmts2 DynRegSkip.DynSkipExample.s0 [] DynReg.empty_ctx)
+    = (["dmod.fn"], [(("", "dmod.fn"), [("x", 1%Z)])], None).
+Proof. exact DynRegSkip.DynSkipExample2.C15_dyn_orig_registered_spelling_not_skipped. Qed.
 
 Print Assumptions C15_known_never_skipped.
 Print Assumptions C15_skip_false.
@@ -257,6 +303,13 @@ Print Assumptions C15_dynamic_nonvacuous.
 Print Assumptions C15_dyn_provided_never_skipped.
 Print Assumptions C15_dyn_registered_never_skipped.
 Print Assumptions C15_dyn_skip_decision.
+Print Assumptions C15_dyn_skip_decision_full.
+Print Assumptions C15_dyn_known_is_provided.
+Print Assumptions C15_static_known_is_registered.
+Print Assumptions C15_dyn_unprovided_skip_decision.
+Print Assumptions C15_dyn_registered_unprovided_skipped.
+Print Assumptions C15_dyn_known_independent_of_registry.
+Print Assumptions C15_dyn_orig_registered_spelling_not_skipped.
 Print Assumptions C15_dyn_skipped_block_dropped.
 Print Assumptions C15_dyn_skipped_binding_dropped.
 Print Assumptions C15_dyn_skipped_ref_binding_dropped.
